@@ -62,8 +62,16 @@ class SObj:
         return self.cls.kind if isinstance(self.cls, SCls) else self.cls
 
     def __repr__(self):
-        fs = ",".join(f"{k}={v}" for k, v in self.fields.items())
-        return f"<{self.cls!r} {fs}>"
+        def short(v):
+            if isinstance(v, SObj):
+                c = v.cls
+                return f"<{c.kind.__name__ if isinstance(c, SCls) else getattr(c, '__name__', c)}#{v.uid}>"
+            if isinstance(v, (list, tuple, dict)):
+                return f"{type(v).__name__}[{len(v)}]"
+            return str(v)
+
+        fs = ",".join(f"{k}={short(v)}" for k, v in self.fields.items())
+        return f"<{self.cls!r}#{self.uid} {fs}>"
 
 
 class Opaque:
